@@ -1,6 +1,8 @@
 import Pyunicorn.Model.Proto
 import Pyunicorn.Model.Nsi
 import Pyunicorn.Model.NsiMeasures
+import Pyunicorn.Model.NsiBetw
+import Pyunicorn.Model.NetBetw
 /-! Line-protocol driver for C02. -/
 open Pyunicorn Pyunicorn.Proto Pyunicorn.Nsi
 
@@ -38,6 +40,25 @@ def showSplit (G : Gr) : String :=
     showRats (idx.map G.w) ++ " " ++ showRatMat (idx.map fun i => idx.map fun j => G.la 0 i j) ++ " " ++
     showBools (idx.map fun i => G.grp 0 i) ++ " " ++ showBools (idx.map fun i => G.grp 1 i)
 
+
+/-- n.s.i. betweenness three ways on one graph: (1) the definition `nsiBetw` with the
+distances sent by the harness, (2) the same with the model's own breadth-first distances,
+(3) the model of the Cython kernel (`NetBetw.nsiBetweenness`, Newman's algorithm); plus a
+flag saying whether the harness' distances equal the breadth-first ones.
+sources = group 0, targets = group 1. -/
+def betwAll (G : Gr) : String :=
+  let idx := List.range G.n
+  let S := fun i => G.grp 0 i
+  let T := fun i => G.grp 1 i
+  let tab : List (List (Option Nat)) := idx.map fun a => idx.map fun b => bfsDist G a b
+  let Gb : Gr := { G with dist := fun a b => (tab.getD a []).getD b none }
+  let d1 := idx.map fun i => nsiBetw G S T i
+  let d2 := idx.map fun i => nsiBetw Gb S T i
+  let k := Pyunicorn.NetBetw.nsiBetweenness G.n G.adj G.w (idx.map S) (idx.filter T)
+  let dok := idx.all fun i => idx.all fun j => G.dist i j == Gb.dist i j
+  "def=" ++ showRats d1 ++ "|defbfs=" ++ showRats d2 ++ "|kernel=" ++ showRats k ++
+    "|distok=" ++ (if dok then "1" else "0")
+
 def answer (toks : List String) : String :=
   match toks with
   | ["eval", tw, n, adj, w, la0, la1, g0, g1, dist] =>
@@ -52,6 +73,27 @@ def answer (toks : List String) : String :=
       (match rat? tw, rat? p with
        | some t, some pp => evalAll (split (mkGr n adj w la0 la1 g0 g1 dist) v.toNat! pp) t
        | _, _ => "bad-args")
+  | ["betw", n, adj, w, la0, la1, g0, g1, dist] =>
+      betwAll (mkGr n adj w la0 la1 g0 g1 dist)
+  | ["betwsplit", v, p, n, adj, w, la0, la1, g0, g1, dist] =>
+      (match rat? p with
+       | some pp => betwAll (split (mkGr n adj w la0 la1 g0 g1 dist) v.toNat! pp)
+       | none => "bad-p")
+  | ["split2", v1, p1, v2, p2, n, adj, w, la0, la1, g0, g1, dist] =>
+      (match rat? p1, rat? p2 with
+       | some a, some b =>
+          showSplit (split (split (mkGr n adj w la0 la1 g0 g1 dist) v1.toNat! a) v2.toNat! b)
+       | _, _ => "bad-p")
+  | ["evalsplit2", tw, v1, p1, v2, p2, n, adj, w, la0, la1, g0, g1, dist] =>
+      (match rat? tw, rat? p1, rat? p2 with
+       | some t, some a, some b =>
+          evalAll (split (split (mkGr n adj w la0 la1 g0 g1 dist) v1.toNat! a) v2.toNat! b) t
+       | _, _, _ => "bad-args")
+  | ["betwsplit2", v1, p1, v2, p2, n, adj, w, la0, la1, g0, g1, dist] =>
+      (match rat? p1, rat? p2 with
+       | some a, some b =>
+          betwAll (split (split (mkGr n adj w la0 la1 g0 g1 dist) v1.toNat! a) v2.toNat! b)
+       | _, _ => "bad-p")
   | _ => "bad-request"
 
 def main : IO Unit := runDriver answer
